@@ -3,7 +3,7 @@ import ast
 
 from ..model import AnalysisError, dotted, unparse
 from ..structfmt import parse_format, local_defs, resolve_local, linform, lin_eq, SIZES, calcsize_const
-from ..util import sym_env, sym_resolve, POS, FACTS, U, enum_paths, walk_no_nested
+from ..util import resolved_text, sym_env, sym_resolve, POS, FACTS, U, enum_paths, walk_no_nested
 from ..paths import call_attr, call_name
 from .. import wire
 
@@ -277,9 +277,35 @@ def r2(ctx, bh):
     n += wire.prefix_write_pairs(ctx, 'C15.R2', prog.func(BIN, 'BinaryWriter.' + name))
   ctx.floor('C15.R2', 'length-prefixed writer helpers', n, 2)
   rs = prog.func(BIN, 'BinaryReader.ReadString')
-  txt = U(rs.node).replace(' ', '')
-  ctx.ob('C15.R2', rs, 'ReadString reads int16 length then that many bytes',
-         'Structs.Int16.unpack(self._buf.read(2))' in txt and 'self._buf.read(str_len)' in txt or 'read(2)' in txt and txt.count('.read(') == 2,
+  okrs = False
+  sites = [s_ for s_ in wire.struct_sites(prog, rs) if s_.op == 'unpack' and s_.fmt is not None]
+  for ev, ex in enum_paths(ctx, rs):
+    if ex[0] == 'raise':
+      continue
+    reads = [(i, e.node) for i, e in enumerate(ev) if e.kind == 'call' and call_attr(e.node) == 'read' and e.node.args]
+    if len(reads) != 2 or len(sites) != 1 or [(x.code, x.count) for x in sites[0].fmt.fields] != [('h', 1)]:
+      continue
+    # the unpacked length: `n, = unpack(..)` / `n = unpack(..)[0]`, possibly copied into another local
+    ln = None
+    for e in ev:
+      if e.kind == 'stmt' and isinstance(e.node, ast.Assign) and any(x is sites[0].call for x in ast.walk(e.node.value)):
+        t = e.node.targets[0]
+        if isinstance(t, ast.Tuple) and len(t.elts) == 1 and isinstance(t.elts[0], ast.Name):
+          ln = t.elts[0].id
+        elif isinstance(t, ast.Name) and isinstance(e.node.value, ast.Subscript):
+          ln = t.id
+    first = reads[0][1].args[0]
+    try:
+      n1 = prog.const_eval(first, rs.module, rs.cls)
+    except ValueError:
+      n1 = 2 if (isinstance(first, ast.Attribute) and first.attr == 'size' and isinstance(sites[0].call.func, ast.Attribute) and U(first.value) == U(sites[0].call.func.value)) else None
+    second = resolved_text(ev, reads[1][0], reads[1][1].args[0])
+    r = [e for e in ev if e.kind == 'ret']
+    rv = resolved_text(ev, ev.index(r[-1]), r[-1].node.value) if r and r[-1].node.value is not None else ''
+    direct = U(sites[0].call).replace(' ', '') + '[0]'
+    okrs = n1 == 2 and ((ln is not None and second == ln) or second == direct) and (rv == U(reads[1][1]).replace(' ', '') or r[-1].node.value is reads[1][1] or any(
+      e.kind == 'stmt' and isinstance(e.node, ast.Assign) and e.node.value is reads[1][1] and U(e.node.targets[0]) == U(r[-1].node.value) for e in ev))
+  ctx.ob('C15.R2', rs, 'ReadString reads int16 length then that many bytes', okrs,
          'ReadString shape changed', 'strings are int16-length-prefixed')
 
 
